@@ -589,3 +589,7 @@ def run(repo: Repo, rep: Report, tier: str) -> None:
     from .c08 import template_read_check_rule
 
     template_read_check_rule(repo, rep, "C03.R22")
+    from .c09 import absolute_padding_rule
+
+    absolute_padding_rule(repo, rep, "C03.R23")
+
